@@ -153,8 +153,75 @@ def discharge(ob, portfolio=True):
         if ans == "sat":
             ob.status, ob.backend = "refuted", "z3-4.8.12"
             return ob
+    # last resort, REFUTATION ONLY: ground the variables that make the problem non-linear (divisors, factors of products).
+    # Adding equalities only restricts the models, so `sat` is a genuine counter-model of the original obligation.
+    spec = _specialise(ob.hyps, neg)
+    if spec is not None:
+        ob.status, ob.model, ob.backend = "refuted", spec[0], f"{zv}[grounded:{spec[1]}]"
+        ob.seconds = time.time() - t0
+        return ob
+    # CANDIDATE only (never a verdict): the same grounding over the quantifier-free hypotheses.  A model of a SUBSET of the
+    # hypotheses proves nothing; it is handed to the native replay, which decides on the real code.
+    cand = _specialise([h for h in ob.hyps if not has_quantifier(h)], neg, budget_s=15)
     ob.status = "unknown"
+    if cand is not None:
+        ob.model = cand[0]
+        ob.detail = (ob.detail or "") + f" | candidate model from the quantifier-free hypotheses grounded at {cand[1]} (to be confirmed natively)"
+    ob.seconds = time.time() - t0
     return ob
+
+
+def _nonlinear_consts(formulas, limit=4):
+    out, seen = [], set()
+
+    def is_const(x):
+        return z3.is_app(x) and x.num_args() == 0 and x.decl().kind() == z3.Z3_OP_UNINTERPRETED and (z3.is_real(x) or z3.is_int(x))
+
+    def add(x):
+        if is_const(x) and x.get_id() not in {y.get_id() for y in out}:
+            out.append(x)
+    for f in formulas:
+        for x in _walk(f, seen):
+            if not z3.is_app(x):
+                continue
+            k = x.decl().kind()
+            if k in (z3.Z3_OP_DIV, z3.Z3_OP_IDIV, z3.Z3_OP_MOD) and x.num_args() == 2:
+                add(x.arg(1))
+            elif k == z3.Z3_OP_MUL:
+                nn = [c for c in x.children() if not z3.is_rational_value(c) and not z3.is_int_value(c)]
+                if len(nn) >= 2:
+                    for c in nn:
+                        add(c)
+    return out[:limit]
+
+
+def _specialise(hyps, neg, per_try_ms=3000, budget_s=25):
+    import itertools
+    qf = [h for h in hyps if not has_quantifier(h)]
+    cs = _nonlinear_consts(qf + [neg])
+    if os.environ.get("PYVC_DEBUG"):
+        print("specialise consts", cs, flush=True)
+    if not cs:
+        return None
+    t0 = time.time()
+    grid = [1, 2, 3, z3.Q(1, 2), z3.Q(1, 10)]
+    combos = sorted(itertools.product(range(len(grid)), repeat=len(cs)), key=lambda c: (sum(c), c))
+    for combo in combos:
+        if time.time() - t0 > budget_s:
+            break
+        eqs = []
+        for c, gi in zip(cs, combo):
+            v = grid[gi]
+            if z3.is_int(c) and not isinstance(v, int):
+                break
+            eqs.append(c == v)
+        else:
+            r, s = _try(list(hyps) + eqs, neg, per_try_ms)
+            if os.environ.get("PYVC_DEBUG"):
+                print("specialise", eqs, r, flush=True)
+            if r == z3.sat:
+                return s.model(), ",".join(f"{c}={grid[gi]}" for c, gi in zip(cs, combo))
+    return None
 
 
 def is_sat(hyps, timeout_ms=5000):
